@@ -310,7 +310,11 @@ func (g *Gen) matching() string {
 	case 6, 7:
 		return " " + g.pick("on", "ignoring") + " (" + g.lblList() + ") " + g.pick("group_left", "group_right")
 	default:
-		return " " + g.pick("on", "ignoring") + " (" + g.lblList() + ") " + g.pick("group_left", "group_right") + " (" + g.lblList() + ")"
+		// (the include list never names __name__: a second name label in the output is a shape of
+		// the known finding on include labels that the model does not follow further - the engine
+		// drops the first name label only, the model all of them)
+		incl := strings.ReplaceAll(strings.ReplaceAll(strings.ReplaceAll(g.lblList(), "__name__,", ""), ",__name__", ""), "__name__", "")
+		return " " + g.pick("on", "ignoring") + " (" + g.lblList() + ") " + g.pick("group_left", "group_right") + " (" + incl + ")"
 	}
 }
 
